@@ -122,17 +122,58 @@ theorem previousSibling_snoc (t : Tree) (π : Path) (i : Nat) :
 
 /-! ### reverse_children -/
 
-/-- If `children.rev()` kept the contract of a double-ended iterator, `reverse_children` would
-    be `children` reversed (well-formed trees). -/
-theorem reverseChildrenContract_eq {t : Tree} {p : Path} (hw : wf t = true) (h : Valid t p) :
-    reverseChildrenContract t p = (children t p).reverse := by
+/-- The raw children of `p`, last first, up to the first non-normal one (specification). -/
+def reverseChildrenSpec (t : Tree) (p : Path) : List Path :=
+  (rawChildPaths t p).reverse.takeWhile (isNormalAt t)
+
+/-- Walking `previous_sibling` from child `i` of `π` lists the children `i, i-1, …, 0`. -/
+theorem backwardSiblings_snoc (π : Path) : ∀ (i fuel : Nat), i + 1 ≤ fuel →
+    backwardSiblings fuel (some (π ++ [i])) = (List.range (i + 1)).reverse.map (fun j => π ++ [j])
+  | _, 0, h => by omega
+  | 0, fuel + 1, _ => by
+    cases fuel <;> simp [backwardSiblings, internalPreviousSibling_snoc]
+  | i + 1, fuel + 1, h => by
+    simp only [backwardSiblings, internalPreviousSibling_snoc, Nat.add_one_ne_zero, if_false,
+      Nat.add_sub_cancel]
+    rw [backwardSiblings_snoc π i fuel (by omega), List.range_succ (n := i + 1)]
+    simp
+
+theorem internalLastChild_eq (t : Tree) (p : Path) :
+    internalLastChild t p =
+      if (subAt t p).kids.length = 0 then none else some (p ++ [(subAt t p).kids.length - 1]) := by
+  unfold internalLastChild
+  rw [← List.getLast?_map, allChildren_paths, rawChildPaths]
+  cases hn : (subAt t p).kids.length with
+  | zero => simp
+  | succ n => simp [List.range_succ]
+
+/-- `reverse_children` walks all raw children backwards and stops at the first non-normal one;
+    the fuel is adequate. -/
+theorem reverseChildren_eq_spec {t : Tree} {p : Path} (h : Valid t p) :
+    reverseChildren t p = reverseChildrenSpec t p := by
+  unfold reverseChildren reverseChildrenSpec
+  rw [internalLastChild_eq]
+  cases hn : (subAt t p).kids.length with
+  | zero => simp [rawChildPaths, hn]; cases t.size <;> rfl
+  | succ n =>
+    have hfuel : n + 1 ≤ t.size := by
+      have h1 := kids_length_lt_size (subAt t p)
+      have h2 := size_at?_le t p _ h.at?
+      omega
+    simp only [Nat.add_one_ne_zero, if_false, Nat.add_sub_cancel]
+    rw [backwardSiblings_snoc p n t.size hfuel]
+    simp [rawChildPaths, hn, List.map_reverse]
+
+/-- `reverse_children` = `children` reversed (well-formed trees). -/
+theorem reverseChildren_eq {t : Tree} {p : Path} (hw : wf t = true) (h : Valid t p) :
+    reverseChildren t p = (children t p).reverse := by
+  rw [reverseChildren_eq_spec h]
   have hws := wf_at? t p _ hw h.at?
   have hord : kidsOrdered (subAt t p).kids = true := by
     cases hs : subAt t p with
     | node v ks => rw [hs] at hws; simp only [wf, Bool.and_eq_true] at hws; exact hws.1.2
   rw [children_eq hw h]
-  unfold reverseChildrenContract childrenRevContract
-  rw [allChildren_paths]
+  unfold reverseChildrenSpec
   -- reversed, an ordered list is: normal ... normal, then non-normal ... non-normal
   have key : ∀ (r : List Path), r.Pairwise (fun x y => isNormalAt t y = true → isNormalAt t x = true) →
       r.takeWhile (isNormalAt t) = r.filter (isNormalAt t) := by
@@ -165,61 +206,6 @@ theorem reverseChildrenContract_eq {t : Tree} {p : Path} (hw : wf t = true) (h :
   rw [isNormalAt_snoc hat hkb]
   exact kidsOrdered_mono _ hord a b _ _ (by omega) hka hkb hxn
 
-/-- With at most one raw child the shipped `children.rev()` is right. -/
-theorem reverseChildren_le_one {t : Tree} {p : Path} (hw : wf t = true) (h : Valid t p)
-    (hk : (subAt t p).kids.length ≤ 1) (limit : Nat) :
-    reverseChildren t (limit + 1) p = (children t p).reverse := by
-  rw [← reverseChildrenContract_eq hw h]
-  unfold reverseChildren reverseChildrenContract childrenRevContract internalFirstChild internalLastChild
-    allChildren
-  cases hs : (subAt t p).kids with
-  | nil => simp [kidPaths, childrenNextBack]
-  | cons k ks =>
-    have : ks = [] := by
-      rw [hs] at hk
-      cases ks with
-      | nil => rfl
-      | cons k' ks' => simp at hk
-    subst this
-    simp [kidPaths, childrenNextBack]
-
-/-- With two or more raw children the shipped `children.rev()` yields the last child for ever:
-    whatever number of items is taken, all of them are the last raw child. -/
-theorem childrenNextBack_stuck (tl prev : Path) (hne : prev ≠ tl)
-    (hprev : internalPreviousSibling tl = some prev) : ∀ (limit : Nat) (head : Option Path),
-    head ≠ some tl → childrenNextBack limit head (some tl) = List.replicate limit tl
-  | 0, _, _ => rfl
-  | limit + 1, none, _ => by
-    simp only [childrenNextBack, hprev, List.replicate_succ]
-    rw [childrenNextBack_stuck tl prev hne hprev limit (some prev) (by simpa using hne)]
-  | limit + 1, some hd, hh => by
-    have : (hd == tl) = false := by simpa using fun e => hh (by rw [e])
-    simp only [childrenNextBack, this, Bool.false_eq_true, if_false, hprev, List.replicate_succ]
-    rw [childrenNextBack_stuck tl prev hne hprev limit (some prev) (by simpa using hne)]
-
-theorem reverseChildren_endless {t : Tree} {p : Path}
-    (hk : 2 ≤ (subAt t p).kids.length) (limit : Nat)
-    (hlast : isNormalAt t (p ++ [(subAt t p).kids.length - 1]) = true) :
-    reverseChildren t limit p = List.replicate limit (p ++ [(subAt t p).kids.length - 1]) := by
-  have hmap := allChildren_paths t p
-  have hfirst : internalFirstChild t p = some (p ++ [0]) := by
-    unfold internalFirstChild
-    rw [← List.head?_map, hmap, rawChildPaths]
-    cases hn : (subAt t p).kids.length with
-    | zero => omega
-    | succ n => simp [List.range_succ_eq_map]
-  have hlastc : internalLastChild t p = some (p ++ [(subAt t p).kids.length - 1]) := by
-    unfold internalLastChild
-    rw [← List.getLast?_map, hmap, rawChildPaths]
-    cases hn : (subAt t p).kids.length with
-    | zero => omega
-    | succ n => simp [List.range_succ]
-  unfold reverseChildren
-  rw [hfirst, hlastc]
-  rw [childrenNextBack_stuck (p ++ [(subAt t p).kids.length - 1]) (p ++ [(subAt t p).kids.length - 2])
-    (by simp; omega) (by rw [internalPreviousSibling_snoc]; simp; omega) limit _ (by simp; omega)]
-  rw [List.takeWhile_replicate]
-  simp [hlast]
 
 /-! ### child_index -/
 
